@@ -1272,26 +1272,38 @@ impl LSMIterator for TransactionRangeIterator<'_> {
 			return self.seek_first();
 		}
 
-		// Direction change: backward → forward
+		// Direction change: backward → forward.
+		//
+		// In backward mode the non-current source sits somewhere before the
+		// current key (or is exhausted), so neither source can simply be stepped.
+		// Re-position both sources at the first key strictly after the current
+		// one and merge from there.
 		if self.direction != MergeDirection::Forward {
+			if self.current_source == CurrentSource::None {
+				return Ok(false);
+			}
+			let current_key = self.key().user_key().to_vec();
 			self.direction = MergeDirection::Forward;
 			self.is_key_equal = false;
 
-			if !self.snapshot_iter.valid() || !self.ws_valid() {
-				self.seek_ws_first();
-			} else if self.current_source == CurrentSource::Snapshot {
-				self.advance_ws();
-			} else {
+			let mut encoded = current_key.clone();
+			encoded.extend_from_slice(&u64::MAX.to_be_bytes()); // max trailer
+			encoded.extend_from_slice(&u64::MAX.to_be_bytes()); // max timestamp
+			self.snapshot_iter.seek(&encoded)?;
+			if self.snapshot_iter.valid() && self.snapshot_iter.key().user_key() == current_key {
 				self.snapshot_iter.next()?;
 			}
 
-			// Check if now at equal keys
-			if self.snapshot_iter.valid()
-				&& self.ws_valid()
-				&& self.snapshot_iter.key().user_key() == self.ws_key()
-			{
-				self.is_key_equal = true;
-			}
+			let pos = self
+				.write_set_entries
+				.partition_point(|(k, _)| k.as_slice() <= current_key.as_slice());
+			self.ws_pos = if pos < self.write_set_entries.len() {
+				Some(pos)
+			} else {
+				None
+			};
+
+			return self.position_to_min();
 		}
 
 		// Advance CURRENT source (or both if is_key_equal)
@@ -1319,26 +1331,35 @@ impl LSMIterator for TransactionRangeIterator<'_> {
 			return self.seek_last();
 		}
 
-		// Direction change: forward → backward
+		// Direction change: forward → backward.
+		//
+		// Mirror image of the switch in `next()`: re-position both sources at the
+		// last key strictly before the current one and merge from there.
 		if self.direction != MergeDirection::Backward {
+			if self.current_source == CurrentSource::None {
+				return Ok(false);
+			}
+			let current_key = self.key().user_key().to_vec();
 			self.direction = MergeDirection::Backward;
 			self.is_key_equal = false;
 
-			if !self.snapshot_iter.valid() || !self.ws_valid() {
-				self.seek_ws_last();
-			} else if self.current_source == CurrentSource::Snapshot {
-				self.advance_ws();
-			} else {
+			let mut encoded = current_key.clone();
+			encoded.extend_from_slice(&u64::MAX.to_be_bytes()); // max trailer
+			encoded.extend_from_slice(&u64::MAX.to_be_bytes()); // max timestamp
+			if self.snapshot_iter.seek(&encoded)? {
+				// At the first snapshot key >= current: step back over it
 				self.snapshot_iter.prev()?;
+			} else {
+				// Every snapshot key is < current
+				self.snapshot_iter.seek_last()?;
 			}
 
-			// Check if now at equal keys
-			if self.snapshot_iter.valid()
-				&& self.ws_valid()
-				&& self.snapshot_iter.key().user_key() == self.ws_key()
-			{
-				self.is_key_equal = true;
-			}
+			let pos = self
+				.write_set_entries
+				.partition_point(|(k, _)| k.as_slice() < current_key.as_slice());
+			self.ws_pos = pos.checked_sub(1);
+
+			return self.position_to_max();
 		}
 
 		// Advance CURRENT source (or both if is_key_equal)
